@@ -34,6 +34,7 @@ type FuncSpec struct {
 	ErrorNames map[string]string    `json:"error_names"` // error literal (prefix) -> constructor name
 	RangeElems map[string][]Binding `json:"range_elems"` // ranged slice expr -> what is read from each element
 	Note       string               `json:"note"`
+	Fragment   *FragmentSpec        `json:"fragment"` // translate one guard / local / switch of the function instead of the whole body (fragment.go)
 }
 
 type ConstSpec struct {
